@@ -100,7 +100,9 @@ def build(ctx, rng, n, with_refund, seed=None):
         seed = rbytes(rng, rng.choice((16, 32))) if r < 0.6 else \
             rbytes(rng, rng.choice((1, 5, 63, 64, 65, 100, 200))) if r < 0.8 \
             else rbytes(rng, rng.choice((3, 16, 31))) + bytes(rng.choice((1, 2, 33))) \
-            if r < 0.93 else bytes(rng.choice((1, 8, 32, 64)))
+            if r < 0.93 else bytes(rng.choice((0, 0, 1, 8, 32, 64)))
+        # (the EMPTY seed makes the library draw its own secrets: the result
+        # of one setup call is self-consistent all the same)
     c.seed = seed
     c.seeds = [rbytes(rng, 32) for _ in range(n)]
     c.pks = [sigmsg.pubkey(s) for s in c.seeds]
